@@ -17,7 +17,7 @@ structure WFParts (F : Facts) : Prop where
   loadCatch : catchWF F.targetLoaders F.loadCatch F.loaderRaises = true
   specRead : readCatchWF F.specReadCatch = true
   targetRead : readCatchWF F.targetReadCatch = true
-  stdinRead : readCatchWF F.stdinReadCatch = true
+  stdinRead : stdinCatchWF F.stdinReadCatch = true
   specBranches : F.specBranches = [("python", "python-literal"), ("json", "json"), ("python-full", "exec")]
   reprBranches : F.reprBranches = ["python"]
   firstChars : F.firstChars = literalStart
@@ -44,10 +44,16 @@ def isTextReadErr (X : Ext T S R) (c : String) : Bool :=
   (X.mro c).contains "Exception" && (X.mro c).contains "BaseException" &&
   ((X.mro c).contains "OSError" || ((X.mro c).contains "UnicodeError" && (X.mro c).contains "ValueError"))
 
+/-- what reading standard input raises: an OSError, a ValueError (UnicodeError of the decoder; a
+    closed stream) or an AttributeError (`sys.stdin is None`) — all `Exception` subclasses -/
+def isStdinReadErr (X : Ext T S R) (c : String) : Bool :=
+  (X.mro c).contains "Exception" && (X.mro c).contains "BaseException" &&
+  ((X.mro c).contains "OSError" || (X.mro c).contains "ValueError" || (X.mro c).contains "AttributeError")
+
 /-- trusted: how reading a file / standard input fails (checked on every case by the driver) -/
 structure ReadErrOk (X : Ext T S R) (w : World) : Prop where
   file : ∀ p, X.readFile p = none → isTextReadErr X (X.readErr p) = true
-  stdin : ∀ c, w.stdinErr = some c → isTextReadErr X c = true
+  stdin : ∀ c, w.readErr = some c → isStdinReadErr X c = true
 
 /-- trusted: a loader handed a text raises `Exception` subclasses only (never KeyboardInterrupt,
     SystemExit, GeneratorExit) and — needed only for a format whose handler does not name
@@ -89,6 +95,28 @@ theorem caught_read (X : Ext T S R) (names : List String) (c : String)
     · exact caughtBy_of_mem X names c "UnicodeError" h1 hu
     · exact caughtBy_of_mem X names c "ValueError" h2 hu
     · exact top hu
+
+/-- a handler that satisfies `stdinCatchWF` catches every failure of reading standard input -/
+theorem caught_stdin (X : Ext T S R) (names : List String) (c : String)
+    (hn : stdinCatchWF names = true) (hc : isStdinReadErr X c = true) : caughtBy X names c = true := by
+  simp only [stdinCatchWF, isStdinReadErr, Bool.and_eq_true, Bool.or_eq_true] at hn hc
+  obtain ⟨⟨hexc, hbase⟩, hcls⟩ := hc
+  have top : (names.contains "Exception" = true ∨ names.contains "BaseException" = true) →
+      caughtBy X names c = true := by
+    rintro (h | h)
+    · exact caughtBy_of_mem X names c "Exception" hexc h
+    · exact caughtBy_of_mem X names c "BaseException" hbase h
+  obtain ⟨⟨ho, hv⟩, ha⟩ := hn
+  rcases hcls with (h | h) | h
+  · rcases ho with ho | ho
+    · exact caughtBy_of_mem X names c "OSError" h ho
+    · exact top ho
+  · rcases hv with hv | hv
+    · exact caughtBy_of_mem X names c "ValueError" h hv
+    · exact top hv
+  · rcases ha with ha | ha
+    · exact caughtBy_of_mem X names c "AttributeError" h ha
+    · exact top ha
 
 /-- the handler of a format's loader catches whatever the loader raises -/
 theorem caught_load {F : Facts} (hc : catchWF F.targetLoaders F.loadCatch F.loaderRaises = true)
@@ -201,18 +229,18 @@ theorem readStdin_text (F : Facts) (X : Ext T S R) (wd : World) (tt : String) (h
     readStdin F X wd = .ok (some tt) := by
   unfold refStdin at h
   unfold readStdin
-  cases he : wd.stdinErr with
+  cases he : wd.readErr with
   | none => simp [he] at h; simp [h]
   | some c => simp [he] at h
 
 theorem readStdin_unreadable (F : Facts) (X : Ext T S R) (wd : World) (hr : ReadErrOk X wd)
-    (hn : readCatchWF F.stdinReadCatch = true) (h : refStdin wd = .unreadable) :
+    (hn : stdinCatchWF F.stdinReadCatch = true) (h : refStdin wd = .unreadable) :
     readStdin F X wd = .error (.usage .stdinUnreadable) := by
   unfold refStdin at h
   unfold readStdin
-  cases he : wd.stdinErr with
+  cases he : wd.readErr with
   | none => simp [he] at h
-  | some c => simp [readFail, caught_read X _ c hn (hr.stdin c he)]
+  | some c => simp [readFail, caught_stdin X _ c hn (hr.stdin c he)]
 
 theorem getTargetText_text (F : Facts) (X : Ext T S R) (a : Argv) (wd : World) (tt : String)
     (h : refTargetText X a wd = .text tt) :
@@ -251,7 +279,7 @@ theorem getTargetText_text (F : Facts) (X : Ext T S R) (a : Argv) (wd : World) (
     have hpd := not_dash_of_nonEmpty_none hp
     have hfd := not_dash_of_nonEmpty_none hf
     rw [h1, h2, hpd, hfd]
-    cases htty : wd.stdinTty with
+    cases htty : wd.isatty with
     | true => simp [htty] at h
     | false => simp [htty] at h; exact ⟨_, by simp [readStdin_text F X wd tt h], Or.inl rfl⟩
   · cases h
@@ -293,7 +321,7 @@ theorem getTargetText_unreadable {F : Facts} (w : WFParts F) (X : Ext T S R) (a 
     have hpd := not_dash_of_nonEmpty_none hp
     have hfd := not_dash_of_nonEmpty_none hf
     rw [h1, h2, hpd, hfd]
-    cases htty : wd.stdinTty with
+    cases htty : wd.isatty with
     | true => simp [htty] at h
     | false =>
       simp [htty] at h
@@ -331,7 +359,7 @@ theorem handleTarget_empty (F : Facts) (X : Ext T S R) (o : Option String) (fmt 
 theorem wrapSpec_plain (X : Ext T S R) (so : Bool) (s : S) : wrapSpec X so s false false = s := by
   simp [wrapSpec]
 
-theorem glomCli_render (X : Ext T S R) (so : Bool) (t : T) (s : S) (r : R) (indent : Int) (scalar : Bool)
+theorem glomCli_render (X : Ext T S R) (so : StdinState) (t : T) (s : S) (r : R) (indent : Int) (scalar : Bool)
     (h : X.glom t s = .ok r) (hq : X.printed t s = "") :
     glomCli X so t s indent false false scalar = (match refRender X r indent scalar with
       | some out => .exit 0 out
@@ -345,8 +373,12 @@ theorem glomCli_render (X : Ext T S R) (so : Bool) (t : T) (s : S) (r : R) (inde
   · simp only [hs, Bool.false_eq_true, if_false]
     cases X.dumps r (if indent == 0 then none else some indent) <;> rfl
 
+/-- a spec the statement speaks about: the identity, a default-format text, a JSON text -/
+def LiteralSpec (X : Ext T S R) (s : S) : Prop :=
+  s = X.emptySpec ∨ ∃ st, refSpecOf X st = .ok s ∨ X.parse "json" st = .ok s
+
 /-- trusted: the library call prints nothing for a literal spec (only `Inspect` echoes) -/
-def QuietOk (X : Ext T S R) : Prop := ∀ st s t, refSpecOf X st = .ok s → X.printed t s = ""
+def QuietOk (X : Ext T S R) : Prop := ∀ t s, LiteralSpec X s → X.printed t s = ""
 
 /-! ### deliveries: every way of handing the same spec and target to the command -/
 
@@ -359,19 +391,19 @@ def Request.FilesOk (q : Request) (X : Ext T S R) : Prop :=
   (match q.sv with | .file p => p.isEmpty = false ∧ X.readFile p = some q.specText | .argv => True) ∧
   (match q.tv with | .file p => p.isEmpty = false ∧ p ≠ "-" ∧ X.readFile p = some q.targetText | _ => True)
 
-theorem request_expect_texts (X : Ext T S R) (q : Request) (junk : String) (tty : Bool) (so : Bool)
+theorem request_expect_texts (X : Ext T S R) (q : Request) (junk : String) (tty : Bool)
     (hs : q.specText.isEmpty = false) (ht : q.targetText.isEmpty = false)
     (hdash : q.targetText ≠ "-") (hfiles : q.FilesOk X) :
     refSpecText X q.argv = some q.specText ∧
-    refTargetText X q.argv (q.world junk tty so) = .text q.targetText := by
+    refTargetText X q.argv (q.world junk tty) = .text q.targetText := by
   obtain ⟨hf1, hf2⟩ := hfiles
   cases hsv : q.sv <;> cases htv : q.tv <;>
-    simp_all [Request.argv, Request.world, refSpecText, refTargetText, refStdin, posTexts, nonEmpty, Option.filter]
+    simp_all [Request.argv, Request.world, refSpecText, refTargetText, refStdin, posTexts, nonEmpty, Option.filter, World.readErr, World.isatty]
 
 /-! ### delivery independence -/
 
 /-- what the command does with a spec TEXT and a target TEXT, whatever brought them -/
-def Request.direct (F : Facts) (X : Ext T S R) (q : Request) (so : Bool) : Outcome :=
+def Request.direct (F : Facts) (X : Ext T S R) (q : Request) : Outcome :=
   let spec : Except Outcome S :=
     if q.specText.isEmpty then .ok X.emptySpec
     else parseSpec F X (q.specFormat.getD F.specDefault) q.specText
@@ -380,7 +412,7 @@ def Request.direct (F : Facts) (X : Ext T S R) (q : Request) (so : Bool) : Outco
   | .ok spec =>
     match handleTarget F X (some q.targetText) (q.targetFormat.getD F.targetDefault) with
     | .error o => o
-    | .ok t => glomCli X so t spec (q.indent.getD F.indentDefault) q.debug q.inspect q.scalar
+    | .ok t => glomCli X .open t spec (q.indent.getD F.indentDefault) q.debug q.inspect q.scalar
 
 theorem getSpec_request (F : Facts) (X : Ext T S R) (q : Request) (hfiles : q.FilesOk X) :
     getSpec F X q.argv =
@@ -400,21 +432,21 @@ theorem getSpec_request (F : Facts) (X : Ext T S R) (q : Request) (hfiles : q.Fi
       (by_cases he : q.specText.isEmpty = true <;>
         simp [Request.argv, posTexts, truthy, hsv, htv, he, hp, hrd])
 
-theorem getTargetText_request (F : Facts) (X : Ext T S R) (q : Request) (junk : String) (tty so : Bool)
+theorem getTargetText_request (F : Facts) (X : Ext T S R) (q : Request) (junk : String) (tty : Bool)
     (ht : q.targetText.isEmpty = false) (hdash : q.targetText ≠ "-") (hfiles : q.FilesOk X) :
-    getTargetText F X q.argv (q.world junk tty so) = .ok (some q.targetText) := by
+    getTargetText F X q.argv (q.world junk tty) = .ok (some q.targetText) := by
   obtain ⟨_, hf2⟩ := hfiles
   unfold getTargetText
   cases hsv : q.sv <;> cases htv : q.tv <;>
-    simp_all [Request.argv, Request.world, posTexts, truthy, readStdin]
+    simp_all [Request.argv, Request.world, posTexts, truthy, readStdin, World.readErr, World.isatty]
 
 /-- every delivery of a request does what `direct` says -/
-theorem cliMain_request (F : Facts) (X : Ext T S R) (q : Request) (junk : String) (tty so : Bool)
+theorem cliMain_request (F : Facts) (X : Ext T S R) (q : Request) (junk : String) (tty : Bool)
     (ht : q.targetText.isEmpty = false) (hdash : q.targetText ≠ "-") (hfiles : q.FilesOk X) :
-    cliMain F X q.argv (q.world junk tty so) = q.direct F X so := by
+    cliMain F X q.argv (q.world junk tty) = q.direct F X := by
   unfold cliMain Request.direct
-  rw [getSpec_request F X q hfiles, getTargetText_request F X q junk tty so ht hdash hfiles]
-  have hw : (q.world junk tty so).stdinOpen = so := by
+  rw [getSpec_request F X q hfiles, getTargetText_request F X q junk tty ht hdash hfiles]
+  have hw : (q.world junk tty).stdinState = .open := by
     cases htv : q.tv <;> simp [Request.world, htv]
   have ha : q.argv.targetFormat = q.targetFormat ∧ q.argv.indent = q.indent ∧ q.argv.scalar = q.scalar ∧
       q.argv.debug = q.debug ∧ q.argv.inspect = q.inspect := by simp [Request.argv]
@@ -529,11 +561,11 @@ def modelTarget (F : Facts) (X : Ext T S R) (a : Argv) (w : World) : Except Outc
   | .ok text => handleTarget F X text (a.targetFormat.getD F.targetDefault)
 
 theorem readStdin_total {F : Facts} (wf : WFParts F) (X : Ext T S R) (w : World) (hr : ReadErrOk X w) :
-    readStdin F X w = (if w.stdinErr.isSome then .error (.usage .stdinUnreadable) else .ok (some w.stdin)) := by
+    readStdin F X w = (if w.readErr.isSome then .error (.usage .stdinUnreadable) else .ok (some w.stdin)) := by
   unfold readStdin
-  cases he : w.stdinErr with
+  cases he : w.readErr with
   | none => simp
-  | some c => simp [readFail, caught_read X _ c wf.stdinRead (hr.stdin c he)]
+  | some c => simp [readFail, caught_stdin X _ c wf.stdinRead (hr.stdin c he)]
 
 theorem modelTarget_total {F : Facts} (wf : WFParts F) (X : Ext T S R) (hl : LoadErrOk F X)
     (a : Argv) (w : World) (hr : ReadErrOk X w) :
@@ -556,7 +588,7 @@ theorem modelTarget_total {F : Facts} (wf : WFParts F) (X : Ext T S R) (hl : Loa
       by_cases hd : t = "-"
       · subst hd
         simp only [Bool.and_false, Bool.false_eq_true, if_false, beq_self_eq_true, Bool.true_or, if_true, hstd]
-        cases w.stdinErr <;> simp [handleTarget_total wf X hl]
+        cases w.readErr <;> simp [handleTarget_total wf X hl]
       · simp [hd, handleTarget_total wf X hl, hne]
   | none =>
     have h1 := truthy_of_none hp
@@ -569,7 +601,7 @@ theorem modelTarget_total {F : Facts} (wf : WFParts F) (X : Ext T S R) (hl : Loa
       by_cases hd : p = "-"
       · subst hd
         simp only [Bool.false_and, Bool.false_eq_true, if_false, beq_self_eq_true, Bool.or_true, if_true, hstd]
-        cases w.stdinErr <;> simp [handleTarget_total wf X hl]
+        cases w.readErr <;> simp [handleTarget_total wf X hl]
       · simp only [Bool.false_and, Bool.false_eq_true, if_false, Option.some.injEq, hd, beq_iff_eq,
           Bool.or_false, if_true, Option.getD_some]
         cases hrdp : X.readFile p with
@@ -579,7 +611,7 @@ theorem modelTarget_total {F : Facts} (wf : WFParts F) (X : Ext T S R) (hl : Loa
       have h2 := truthy_of_none hf
       have hfd := not_dash_of_nonEmpty_none hf
       rw [h1, h2, hpd, hfd]
-      cases htty : w.stdinTty with
+      cases htty : w.isatty with
       | true =>
         simp only [Bool.false_and, Bool.false_eq_true, if_false, Bool.or_self, Bool.not_true,
           Bool.and_false, if_true]
@@ -588,10 +620,10 @@ theorem modelTarget_total {F : Facts} (wf : WFParts F) (X : Ext T S R) (hl : Loa
       | false =>
         simp only [Bool.false_and, Bool.false_eq_true, if_false, Bool.or_self, Bool.not_false,
           Bool.and_self, if_true, hstd]
-        cases w.stdinErr <;> simp [handleTarget_total wf X hl]
+        cases w.readErr <;> simp [handleTarget_total wf X hl]
 
 theorem glomCli_total {F : Facts} (wf : WFParts F) (X : Ext T S R) (a : Argv) (w : World) (t : T) (s : S) :
-    glomCli X w.stdinOpen t s (a.indent.getD F.indentDefault) a.debug a.inspect a.scalar = refRun X a w t s := by
+    glomCli X w.stdinState t s (a.indent.getD F.indentDefault) a.debug a.inspect a.scalar = refRun X a w t s := by
   unfold glomCli refRun wrapSpec
   rw [wf.indentDefault]
   rfl
@@ -600,7 +632,7 @@ theorem cliMain_total {F : Facts} (wf : WFParts F) (X : Ext T S R) (hr : ReprOk 
     (a : Argv) (w : World) (hrd : ReadErrOk X w) : cliMain F X a w = refMain X a w := by
   have hs := getSpec_total wf X hr hrd.file a
   have ht := modelTarget_total wf X hl a w hrd
-  unfold cliMain refMain
+  unfold cliMain refMain refFinish
   rw [hs]
   cases refSpecMain X a with
   | error o => rfl
@@ -884,16 +916,18 @@ theorem handleTarget_err (F : Facts) (X : Ext T S R) (text : Option String) (fmt
       · cases h
       · split at h <;> (cases h; rfl)
 
-theorem glomCli_status (X : Ext T S R) (so : Bool) (t : T) (s : S) (indent : Int) (d i sc : Bool) :
+theorem glomCli_status (X : Ext T S R) (so : StdinState) (t : T) (s : S) (indent : Int) (d i sc : Bool) :
     (glomCli X so t s indent d i sc).status ≤ 1 := by
   unfold glomCli
   dsimp only
   split
   · simp [Outcome.status]
-  · simp [Outcome.status]
   · split
     · simp [Outcome.status]
-    · split <;> simp [Outcome.status]
+    · simp [Outcome.status]
+    · split
+      · simp [Outcome.status]
+      · split <;> simp [Outcome.status]
 
 theorem failure_status (o : Outcome) (h : o.isFailure = true) : o.status = 1 ∧ o.stdout = "" := by
   cases o <;> simp_all [Outcome.isFailure, Outcome.status, Outcome.stdout]
@@ -909,16 +943,18 @@ theorem cliMain_status (F : Facts) (X : Ext T S R) (a : Argv) (w : World) : (cli
       · rename_i o h; rw [(failure_status o (handleTarget_err F X _ _ o h)).1]; exact Nat.le_refl 1
       · exact glomCli_status _ _ _ _ _ _ _ _
 
-theorem glomCli_exit (X : Ext T S R) (so : Bool) (t : T) (s : S) (indent : Int) (d i sc : Bool) (c : Nat)
+theorem glomCli_exit (X : Ext T S R) (so : StdinState) (t : T) (s : S) (indent : Int) (d i sc : Bool) (c : Nat)
     (out : String) (h : glomCli X so t s indent d i sc = .exit c out) :
-    (c = 0 ∧ ∃ r, X.glom t (wrapSpec X so s d i) = .ok r ∧
-      (out = X.printed t (wrapSpec X so s d i) ++ X.str r ∨
+    (c = 0 ∧ ∃ r, X.glom t (wrapSpec X (so == .open) s d i) = .ok r ∧
+      (out = X.printed t (wrapSpec X (so == .open) s d i) ++ X.str r ∨
        ∃ js, X.dumps r (if indent == 0 then none else some indent) = .ok js ∧
-         out = X.printed t (wrapSpec X so s d i) ++ (js ++ "\n"))) ∨
-    (c = 1 ∧ ∃ cls msg, X.glom t (wrapSpec X so s d i) = .glomError cls msg ∧
-      out = X.printed t (wrapSpec X so s d i) ++ (cls ++ ": " ++ msg ++ "\n")) := by
+         out = X.printed t (wrapSpec X (so == .open) s d i) ++ (js ++ "\n"))) ∨
+    (c = 1 ∧ ∃ cls msg, X.glom t (wrapSpec X (so == .open) s d i) = .glomError cls msg ∧
+      out = X.printed t (wrapSpec X (so == .open) s d i) ++ (cls ++ ": " ++ msg ++ "\n")) := by
   unfold glomCli at h
   dsimp only at h
+  split at h
+  · cases h
   split at h
   · rename_i cls msg hg
     cases h
@@ -936,7 +972,7 @@ theorem glomCli_exit (X : Ext T S R) (so : Bool) (t : T) (s : S) (indent : Int) 
 theorem cliMain_exit (F : Facts) (X : Ext T S R) (a : Argv) (w : World) (c : Nat) (out : String)
     (h : cliMain F X a w = .exit c out) :
     ∃ s t, getSpec F X a = .ok s ∧
-      glomCli X w.stdinOpen t s (a.indent.getD F.indentDefault) a.debug a.inspect a.scalar = .exit c out := by
+      glomCli X w.stdinState t s (a.indent.getD F.indentDefault) a.debug a.inspect a.scalar = .exit c out := by
   unfold cliMain at h
   split at h
   · rename_i o hs
@@ -1129,6 +1165,149 @@ theorem parseArgv_specFormat_from_args (tbl : Table) (E : PEnv) (prog : String) 
           exact (parseFlags_from_args tbl E args args.length args [] [] [] fm pos (Nat.le_refl _)
             (fun x hx => hx) hnf (fun k v hm => by cases hm) hpf).1 _ _ hmem
         · cases hv
+
+/-! ### the reference of the statement (`expect`) against the complete decision table (`refMain`) -/
+
+theorem expectSpec_refSpecMain (X : Ext T S R) (a : Argv) (r : Except String S)
+    (h : expectSpec X a = some r) : refSpecMain X a = liftExc r ∧ ∀ s, r = .ok s → LiteralSpec X s := by
+  unfold expectSpec refSpecSrc at h
+  unfold refSpecMain
+  have lit : ∀ st, refLiteralSpec X (a.specFormat.getD "python") st = some r →
+      refParse X (a.specFormat.getD "python") st = liftExc r ∧ ∀ s, r = .ok s → LiteralSpec X s := by
+    intro st hl
+    unfold refLiteralSpec at hl
+    unfold refParse
+    split at hl
+    · rename_i hf; cases hl
+      exact ⟨by simp [hf], fun s hs => Or.inr ⟨st, Or.inl hs⟩⟩
+    · rename_i hf
+      split at hl
+      · rename_i hj; cases hl
+        exact ⟨by simp [hf, hj], fun s hs => Or.inr ⟨st, Or.inr hs⟩⟩
+      · cases hl
+  cases hp : nonEmpty (posTexts a).1 with
+  | some st =>
+    cases hf : nonEmpty a.specFile with
+    | some p => simp [hp, hf] at h
+    | none => simp only [hp, hf] at h ⊢; exact lit st h
+  | none =>
+    cases hf : nonEmpty a.specFile with
+    | some p =>
+      simp only [hp, hf] at h ⊢
+      cases hrd : X.readFile p with
+      | none => simp [hrd] at h
+      | some t =>
+        simp only [hrd] at h ⊢
+        by_cases he : t.isEmpty = true
+        · simp only [he, if_true, Option.some.injEq] at h ⊢
+          subst h
+          exact ⟨rfl, fun s hs => Or.inl (by cases hs; rfl)⟩
+        · simp only [he, Bool.false_eq_true, if_false] at h ⊢
+          exact lit t h
+    | none =>
+      simp only [hp, hf, Option.some.injEq] at h ⊢
+      subst h
+      exact ⟨rfl, fun s hs => Or.inl (by cases hs; rfl)⟩
+
+/-- the run, without --debug / --inspect, on a quiet library call: what `expectRun` says -/
+theorem check_refRun (X : Ext T S R) (a : Argv) (w : World) (t : T) (s : S)
+    (hd : a.debug = false) (hi : a.inspect = false) (hq : X.printed t s = "") :
+    checkExpect (expectRun X a t s) false (observe (refRun X a w t s)) = true := by
+  unfold expectRun refRun checkExpect observe
+  simp only [hd, hi, Bool.or_self, Bool.false_and, Bool.false_eq_true, if_false, hq, String.empty_append,
+    Bool.not_false, Bool.true_and, Bool.true_or]
+  cases hg : X.glom t s with
+  | glomError cls msg => simp [String.toList_append, List.isPrefixOf_iff_prefix]
+  | other c => simp
+  | ok r =>
+    simp only
+    unfold refRender refDumpsErr
+    by_cases hs : (a.scalar && X.isScalar r) = true
+    · simp [hs]
+    · simp only [hs, Bool.false_eq_true, if_false]
+      cases X.dumps r (if a.indent.getD 2 == 0 then none else some (a.indent.getD 2)) <;> simp
+
+theorem check_refText (X : Ext T S R) (hquiet : QuietOk X) (a : Argv) (w : World) (s : S) (hs : LiteralSpec X s)
+    (hd : a.debug = false) (hi : a.inspect = false) (tt : String) :
+    checkExpect (expectText X a s tt) false
+      (observe (refFinish X a w s (refLoad X (a.targetFormat.getD "json") tt))) = true := by
+  unfold expectText refLoad refFinish
+  by_cases he : tt.isEmpty = true
+  · simp only [he, if_true]
+    exact check_refRun X a w _ s hd hi (hquiet _ s hs)
+  · simp only [he, Bool.false_eq_true, if_false]
+    cases refLoaderKind (a.targetFormat.getD "json") with
+    | none => simp [checkExpect, observe]
+    | some k =>
+      simp only
+      cases X.load k tt with
+      | error c => simp [checkExpect, observe]
+      | ok t => exact check_refRun X a w t s hd hi (hquiet t s hs)
+
+/-- **the complete decision table satisfies the statement's reference**, for all flags and worlds -/
+theorem check_refMain (X : Ext T S R) (hquiet : QuietOk X) (a : Argv) (w : World) :
+    checkExpect (expect X a w) false (observe (refMain X a w)) = true := by
+  unfold expect
+  by_cases hdi : (a.debug || a.inspect) = true
+  · simp [hdi, checkExpect, observe]
+  · simp only [hdi, Bool.false_eq_true, if_false]
+    have hd : a.debug = false := by cases h : a.debug <;> simp_all
+    have hi : a.inspect = false := by cases h : a.inspect <;> simp_all
+    cases hsp : expectSpec X a with
+    | none => simp [checkExpect, observe]
+    | some r =>
+      obtain ⟨hmain, hlit⟩ := expectSpec_refSpecMain X a r hsp
+      unfold refMain
+      rw [hmain]
+      cases r with
+      | error c => simp [liftExc, checkExpect, observe, isExit0]
+      | ok s =>
+        have hs := hlit s rfl
+        simp only [liftExc]
+        unfold expectTarget refTargetText refTargetMain refStdin
+        have hfin : ∀ o, refFinish X a w s (.error o) = o := fun _ => rfl
+        have key := fun tt => check_refText X hquiet a w s hs hd hi tt
+        have hempty : refLoad X (a.targetFormat.getD "json") "" = (.ok X.emptyTarget : Except Outcome T) := by
+          simp [refLoad]
+        cases hp : nonEmpty (posTexts a).2 with
+        | some t =>
+          cases hf : nonEmpty a.targetFile with
+          | some p => simp [checkExpect, observe]
+          | none =>
+            simp only
+            by_cases hdash : t = "-"
+            · subst hdash
+              simp only [beq_self_eq_true, if_true]
+              cases w.readErr with
+              | some c => simp [checkExpect, observe, hfin]
+              | none => simpa using key w.stdin
+            · simp only [beq_iff_eq, hdash, if_false]
+              simpa using key t
+        | none =>
+          cases hf : nonEmpty a.targetFile with
+          | some p =>
+            simp only
+            by_cases hdash : p = "-"
+            · subst hdash
+              simp only [beq_self_eq_true, if_true]
+              cases w.readErr with
+              | some c => simp [checkExpect, observe, hfin]
+              | none => simpa using key w.stdin
+            · simp only [beq_iff_eq, hdash, if_false]
+              cases X.readFile p with
+              | none => simp [checkExpect, observe, hfin]
+              | some t => simpa using key t
+          | none =>
+            simp only
+            cases w.isatty with
+            | true =>
+              simp only [if_true, hempty]
+              exact check_refRun X a w _ s hd hi (hquiet _ s hs)
+            | false =>
+              simp only [Bool.false_eq_true, if_false]
+              cases w.readErr with
+              | some c => simp [checkExpect, observe, hfin]
+              | none => simpa using key w.stdin
 
 theorem channelsAgree_of_all_eq (outs : List Outcome) (d : Outcome) (h : ∀ o ∈ outs, o = d) :
     channelsAgree outs = true := by
